@@ -361,9 +361,23 @@ class Check:
         os.makedirs(build.BUILD, exist_ok=True)
         lockf = open(os.path.join(build.BUILD, "check-%s.lock" % self.prop.id), "w")
         fcntl.flock(lockf, fcntl.LOCK_EX)
+        # watchdog: a check that does not finish is itself a result (a changed tree once sent a run into a loop
+        # that could not be reproduced afterwards); the limits are far above the normal run times
+        import signal
+        limit = int(os.environ.get("VERIF_TIMEOUT", "2400" if self.tier == "quick" else "14400"))
+
+        def _expired(_sig, _frm):
+            import traceback
+            where = "".join(traceback.format_stack(_frm)[-6:])
+            path = self.write_replay("timeout", [], "the check did not finish within %d s; it was here:\n%s" % (limit, where))
+            print("VIOLATION property=%s replay=%s no-failing-input-found" % (self.prop.id, path), flush=True)
+            os._exit(1)
+        signal.signal(signal.SIGALRM, _expired)
+        signal.alarm(limit)
         try:
             return self._execute()
         finally:
+            signal.alarm(0)
             lockf.close()
 
     def _execute(self):
